@@ -543,6 +543,11 @@ fn case_values(bytes: &[u8], ctx: &mut Ctx) -> CaseResult {
         let mut g2 = g.clone();
         g2 *= &sig2.pair(&pk2);
         gt_roundtrip(&g2, "product of pairings")?;
+        // any 576 bytes parse (no validation): the encoding must come back unchanged
+        let mut raw = g.to_bytes();
+        let at = s.below(raw.len());
+        raw[at] ^= 1 << s.below(8);
+        vensure!(GTElement::from_bytes(&raw).to_bytes() == raw, "C16:gt:encoding-changed", "to_bytes(from_bytes(b)) != b for a perturbed element");
         ctx.label("values:gt");
     }
     ctx.label("values:keys-and-signatures");
